@@ -54,6 +54,11 @@ inductive Frag : Node → Prop
       (hlv : lv.name = "identifier") (flv : Frag lv) (fl : Frag lhs) (fr : Frag rhs) : Frag n
   | letN (n : Node) (t : Tok) (lv : Node) (ht : n.tok = some t) (h : n.name = "let")
       (hc : n.children = [some lv]) (fl : Frag lv) : Frag n
+  | ifN (n : Node) (t : Tok) (pairs : List (Node × Node)) (ht : n.tok = some t) (h : n.name = "if")
+      (hc : n.children = pairs.flatMap (fun p => [some p.1, some p.2]))
+      (hg : ∀ p, p ∈ pairs → Frag p.1) (hb : ∀ p, p ∈ pairs → Frag p.2) : Frag n
+  | loopGuard (n : Node) (t : Tok) (c0 body : Node) (ht : n.tok = some t) (h : n.name = "loop")
+      (hc : n.children = [some c0, some body]) (h0 : c0.name = "guard") (f0 : Frag c0) (fb : Frag body) : Frag n
   | inert (n : Node) (t : Tok) (ht : n.tok = some t)
       (h : n.name = "like" ∨ n.name = "kvp" ∨ n.name = "preset" ∨ n.name = "params" ∨ n.name = "funccall" ∨
            n.name = "compaccess" ∨ n.name = "as" ∨ n.name = "except" ∨ n.name = "otherwise" ∨ n.name = "finally" ∨
@@ -332,6 +337,53 @@ theorem tokOf_np (n : Node) (h : Frag n) : NP (tokOf n) := by
   simp [tokOf, ht]; np
 macro_rules | `(tactic| np_lem) => `(tactic| exact tokOf_np _ (by solve_by_elim (maxDepth := 4)))
 
+/-! ### control-flow combinators -/
+theorem ifChain_np : ∀ (l : List (M Val × M Val)), (∀ p, p ∈ l → NP p.1 ∧ NP p.2) → NP (ifChain l) := by
+  intro l; induction l with
+  | nil => intro _; unfold ifChain; np
+  | cons p rest ih =>
+    intro h
+    obtain ⟨g, b⟩ := p
+    unfold ifChain
+    refine NPQ.bind _ _ (fun _ => True) _ (h (g, b) (by simp)).1 (fun v _ => ?_)
+    split
+    · exact (h (g, b) (by simp)).2
+    · exact ih (fun p hp => h p (by simp [hp]))
+
+theorem guardLoop_np (guard body : M Val) (hg : NP guard) (hb : NP body) : ∀ k, NP (guardLoop guard body k) := by
+  intro k; induction k with
+  | zero => unfold guardLoop; np
+  | succ k ih =>
+    unfold guardLoop
+    refine NPQ.bind _ _ _ _ (NPQ.attemptE _ _ hg) (fun r hr => ?_)
+    split
+    · refine NPQ.bind _ _ _ _ (NPQ.attemptE _ _ hb) (fun r2 hr2 => ?_)
+      split
+      · exact ih
+      · next e =>
+        have he : e ≠ Sig.panic := hr2
+        np
+    · np
+    · next e =>
+      have he : e ≠ Sig.panic := hr
+      np
+
+theorem withFreshIs_np {α : Type} (m : M α) (hm : NP m) : NP (withFreshIs m) := by
+  unfold withFreshIs
+  refine NPQ.bind (get : M St) _ Inv _ NPQ.get (fun s hs => ?_)
+  dsimp only []
+  refine NPQ.bind _ _ (fun _ => True) _ (NPQ.set _ hs) (fun _ _ => ?_)
+  refine NPQ.bind _ _ _ _ (NPQ.attemptE _ _ hm) (fun r hr => ?_)
+  refine NPQ.bind _ _ (fun _ => True) _ (NPQ.modify _ (fun _ h => h)) (fun _ _ => ?_)
+  cases r with
+  | ok v => np
+  | error e =>
+    have he : e ≠ Sig.panic := hr
+    np
+
+theorem scopeName_np (n : Node) (t : Tok) (ht : n.tok = some t) : NP (scopeName n) := by
+  unfold scopeName; simp [tokOf, ht]; np
+
 abbrev IH (g : Nat) : Prop := ∀ g', g' < g → ∀ sc n, Frag n → NP (eval g' sc n)
 
 section ops
@@ -423,6 +475,38 @@ theorem evalIdent_any (sc : Nat) (n : Node) (t : Tok) (ht : n.tok = some t) (hc 
   cases g with
   | zero => unfold evalIdent; np
   | succ g' => exact evalIdent_step g' (fun g'' h => ihs g'' (by omega)) sc n t ht hc
+theorem ifBranches_any (sc : Nat) : ∀ (pairs : List (Node × Node)), (∀ p, p ∈ pairs → Frag p.1) → (∀ p, p ∈ pairs → Frag p.2) →
+    ∀ k, k ≤ g + 1 → NPQ (ifBranches k sc (pairs.flatMap (fun p => [some p.1, some p.2])))
+      (fun l => ∀ q, q ∈ l → NP q.1 ∧ NP q.2) := by
+  intro pairs; induction pairs with
+  | nil =>
+    intro _ _ k _
+    cases k with
+    | zero => unfold ifBranches; exact NPQ.throw _ _ (by simp)
+    | succ k => simp only [List.flatMap_nil]; unfold ifBranches; exact NPQ.pure _ _ (by intro q hq; simp at hq)
+  | cons p rest ihp =>
+    intro hg hb k hk
+    cases k with
+    | zero => unfold ifBranches; exact NPQ.throw _ _ (by simp)
+    | succ k =>
+      simp only [List.flatMap_cons, List.cons_append, List.nil_append]
+      unfold ifBranches
+      refine NPQ.bind _ _ _ _ (ihp (fun q hq => hg q (by simp [hq])) (fun q hq => hb q (by simp [hq])) k (by omega)) (fun l hl => ?_)
+      refine NPQ.pure _ _ ?_
+      intro q hq
+      simp only [List.mem_cons] at hq
+      rcases hq with hq | hq
+      · subst hq
+        exact ⟨ihs k (by omega) sc _ (hg p (by simp)), ihs k (by omega) sc _ (hb p (by simp))⟩
+      · exact hl q hq
+theorem evalLoopGuard_step (sc : Nat) (n c0 body : Node) (t : Tok) (ht : n.tok = some t)
+    (hc : n.children = [some c0, some body]) (h0 : c0.name = "guard") (f0 : Frag c0) (fb : Frag body) :
+    NP (evalLoop (g+1) sc n) := by
+  have ih := ihs g (Nat.le_refl g)
+  unfold evalLoop; simp [hc, child, h0]
+  refine NPQ.bind _ _ (fun _ => True) _ (scopeName_np n t ht) (fun _ _ => ?_)
+  refine NPQ.bind _ _ (fun _ => True) _ (newChild_np _ _) (fun ls _ => ?_)
+  exact withFreshIs_np _ (guardLoop_np _ _ (ih ls c0 f0) (ih ls body fb) g)
 end ops
 
 theorem eval_frag_np : ∀ (f sc : Nat) (n : Node), Frag n → NP (eval f sc n) := by
@@ -500,6 +584,17 @@ theorem eval_frag_np : ∀ (f sc : Nat) (n : Node), Frag n → NP (eval f sc n) 
             obtain ⟨kids, hk, hf⟩ := Frag.list_inv fl hl
             simp [hk]; np
           · np
+      | ifN n t pairs ht h hc hg hb =>
+        unfold eval; simp [h]
+        refine NPQ.bind _ _ (fun _ => True) _ (scopeName_np n t ht) (fun _ _ => ?_)
+        refine NPQ.bind _ _ (fun _ => True) _ (newChild_np _ _) (fun bs _ => ?_)
+        rw [hc]
+        exact NPQ.bind _ _ _ _ (ifBranches_any f ihs bs pairs hg hb f (by omega)) (fun l hl => ifChain_np l hl)
+      | loopGuard n t c0 body ht h hc h0 f0 fb =>
+        unfold eval; simp [h]
+        cases f with
+        | zero => unfold evalLoop; np
+        | succ f' => exact evalLoopGuard_step f' (fun g'' hg => ihs g'' (by omega)) sc n c0 body t ht hc h0 f0 fb
       | inert n t ht h =>
         rcases h with h | h | h | h | h | h | h | h | h | h | h | h | h <;> (unfold eval; simp [h]; np)
 
